@@ -115,7 +115,7 @@ def required_labels(tier):
 _TIER = ['quick']
 
 
-SOFT_FLOOR = 3.0e-3
+SOFT_FLOOR = 1.0e-2
 
 
 def shard_setup(tier):
@@ -144,7 +144,7 @@ def _spec(case, mult):
         mu = 10.0 ** case['logmu'][i]
         t = 10.0 ** case['logtan'][i]
         # keep every solid layer out of the near-fluid regime in which the solver's own radial functions are noise
-        # (KF-C05-near-fluid-layer; seen from |mu| ~ 8e-4 S in a 4-layer stack with a liquid): |mu| >= SOFT_FLOOR * S with
+        # (KF-C05-near-fluid-layer; seen from |mu| ~ 8e-4 S in a 4-layer stack with a liquid; at 3e-3 S one thorough-tier case in 30 000 still converged too slowly to judge): |mu| >= SOFT_FLOOR * S with
         # S = (4/3) pi G rho_layer^2 R^2, by construction (the modulus is raised, the case is not discarded)
         S = 4.0 / 3.0 * math.pi * G * rho[i] ** 2 * (10.0 ** case['logR']) ** 2
         if k == 'solid' and mu * math.sqrt(1.0 + t * t) < SOFT_FLOOR * S and not case.get('no_floor'):
